@@ -343,6 +343,7 @@ class Oracle:
         if len(raw) < 20:
             raw += bytes(20 - len(raw))
         tid = bytes([(e["tpid_format"] << 6) | 5, 0]) + len(raw).to_bytes(2, "big") + raw
+        self.last_tid_iscsi = (s.encode(), len(raw) - len(s)) if kind == "iscsi0" else None
         if kind == "iscsi0":
             # the Lean oracle's encoder of C04.transportId_iscsi_name (Std.encTidIscsiName): name, NUL padding
             lean = self.stdenc("tidiscsi", "{name=%s,pad=i%d}" % (hx(s.encode()), len(raw) - len(s)))
@@ -356,6 +357,7 @@ class Oracle:
         descs = []
         dtxt = []
         for _ in range(self.count()):
+            self.last_tid_iscsi = None
             tid, te = self.transport_id()
             v = self.vals("full_status_descriptor", {"additional_desc_length": len(tid)})
             e = self.report("full_status_descriptor", v, drop=("additional_desc_length",))
@@ -363,15 +365,18 @@ class Oracle:
             descs.append(e)
             body += self.enc("full_status_descriptor", v) + tid
             namekey = {0: "n_port_name", 3: "eui64_name", 4: "initiator_port_identifier", 6: "sas_address"}.get(te["protocol_id"])
+            if namekey is None and self.last_tid_iscsi is not None:
+                dtxt.append("{header={%s},name=%s,pad=i%d}" % (",".join("%s=i%d" % kv for kv in v.items()), hx(self.last_tid_iscsi[0]), self.last_tid_iscsi[1]))
+                continue
             dtxt.append(None if namekey is None else "{header={%s},pid=i%d,tid={tpid_format=i%d,protocol_id=i%d,%s=%s}}" % (
                 ",".join("%s=i%d" % kv for kv in v.items()), te["protocol_id"], te["tpid_format"], te["protocol_id"], namekey, hx(te[namekey])))
         whole = gen.to_bytes(4, "big") + len(body).to_bytes(4, "big") + body
         if all(t is not None for t in dtxt):
-            # only fixed-size TransportIDs: the whole response as the Lean oracle states it (Std.encReadFullStatus,
-            # the encoder of C04.prReadFullStatus_decodes)
-            lean = self.stdenc("prreadfullstatus", "{gen=i%d,descs=[%s]}" % (gen, ",".join(dtxt)))
+            # fixed-size and iSCSI-name TransportIDs: the whole response as the Lean oracle states it
+            # (Std.encReadFullStatusAny, the encoder of C04.prReadFullStatus_decodes_any)
+            lean = self.stdenc("prreadfullstatusany", "{gen=i%d,descs=[%s]}" % (gen, ",".join(dtxt)))
             if lean != whole:
-                raise Infra("oracle inconsistency: Std.encReadFullStatus differs from the block-wise composition")
+                raise Infra("oracle inconsistency: Std.encReadFullStatusAny differs from the block-wise composition")
             whole = lean
         return whole, {"pr_generation": gen, "full_status": descs}
 
